@@ -156,7 +156,7 @@ func genENode(t *rapid.T, depth int, allowDollar bool, equs *[]*ENode, used map[
 		}
 		if k == 1 {
 			// an EQU name standing for a (smaller) expression
-			def := genENode(t, min(depth, 1), false, equs, used)
+			def := genENode(t, min(depth, 2), false, equs, used)
 			nm := genName(t, "en", used)
 			n := &ENode{Name: nm, Def: def}
 			*equs = append(*equs, n)
@@ -198,6 +198,9 @@ type ExprCase struct {
 	// Ctx "widen": an out-of-reach Jcc over 200 reserved bytes precedes the statement, so the
 	// program is assembled twice and $ differs between the rounds
 	Ctx string `json:"ctx,omitempty"`
+	// Fwd: the EQU definitions are written outermost first, so every body names constants that are defined
+	// further down (they are all defined by the time the statement under test uses them)
+	Fwd bool `json:"fwd,omitempty"`
 }
 
 func (c *ExprCase) prefix() string {
@@ -231,6 +234,16 @@ func (c *ExprCase) equLines() string {
 	}
 	for _, d := range defs {
 		emit(d)
+	}
+	if c.Fwd {
+		lines := strings.Split(strings.TrimRight(sb.String(), "\n"), "\n")
+		for i, j := 0, len(lines)-1; i < j; i, j = i+1, j-1 {
+			lines[i], lines[j] = lines[j], lines[i]
+		}
+		if len(lines) == 1 && lines[0] == "" {
+			return ""
+		}
+		return strings.Join(lines, "\n") + "\n"
 	}
 	return sb.String()
 }
@@ -284,7 +297,7 @@ func checkC06(c ExprCase) Verdict {
 		org = 0
 	}
 	text := c.E.Render()
-	v := Verdict{Key: fmt.Sprintf("%s|%d|%d|%s|%s", c.Pos, c.Mode, c.Org, text, c.Ctx), Class: c.Pos}
+	v := Verdict{Key: fmt.Sprintf("%s|%d|%d|%s|%s|%v", c.Pos, c.Mode, c.Org, text, c.Ctx, c.Fwd), Class: c.Pos}
 	// the statement under test is the first emitting statement after the optional prefix: $ = origin + prefix length
 	skip := 0
 	if c.Ctx != "" {
@@ -407,7 +420,7 @@ func checkC06(c ExprCase) Verdict {
 
 var propC06 = &Prop[ExprCase]{
 	ID:   "C06",
-	Rule: "expression trees up to depth 4 over boundary and uniform literals (decimal, negative decimal, hex), + - * / %, needed and redundant parentheses, EQU names standing for sub-expressions, $, random spacing around operators; in every operand position (DD, DW, DB, 32- and 16-bit immediates, displacement, RESB, EQU body - there $ is the address of the definition, the use follows three bytes later), one case in five behind an out-of-reach Jcc that forces a second assembly round; oracle (a) arbitrary-precision reference evaluator with usual precedence, left associativity, truncating division; (b) metamorphic: expression vs its literal value assemble identically; non-trivial = operators of both precedence classes, or parentheses, or a negative operand of / or %; distinct by (position, mode, origin, rendered expression)",
+	Rule: "expression trees up to depth 4 over boundary and uniform literals (decimal, negative decimal, hex), + - * / %, needed and redundant parentheses, EQU names standing for sub-expressions (defined innermost first, or - one case in three - outermost first, so that bodies name constants defined further down), $, random spacing around operators; in every operand position (DD, DW, DB, 32- and 16-bit immediates, displacement, RESB, EQU body - there $ is the address of the definition, the use follows three bytes later), one case in five behind an out-of-reach Jcc that forces a second assembly round; oracle (a) arbitrary-precision reference evaluator with usual precedence, left associativity, truncating division; (b) metamorphic: expression vs its literal value assemble identically; non-trivial = operators of both precedence classes, or parentheses, or a negative operand of / or %; distinct by (position, mode, origin, rendered expression)",
 	Gen: func(t *rapid.T) ExprCase {
 		c := ExprCase{
 			Mode: rapid.SampledFrom([]int{0, 32}).Draw(t, "mode"),
@@ -420,6 +433,7 @@ var propC06 = &Prop[ExprCase]{
 		if rapid.IntRange(0, 4).Draw(t, "ctx") == 0 {
 			c.Ctx = "widen"
 		}
+		c.Fwd = rapid.IntRange(0, 2).Draw(t, "fwd") == 0
 		return c
 	},
 	Check: checkC06,
